@@ -727,6 +727,150 @@ fn diff_sig(c: &Case, sh: &SheetCase, got: &str, want: &BTreeMap<(u32, u32), Str
     }
 }
 
+/// value cells of the sheet data in stream order: (row, col, canonical value, record id)
+fn stream_cells(c: &Case, sh: &SheetCase) -> Vec<(u32, u32, String, u16)> {
+    let classes = style_classes(c);
+    let (a, b) = data_span(&sh.items).unwrap_or((0, 0));
+    let mut row = 0u32;
+    let mut v = vec![];
+    for it in &sh.items[a..b] {
+        match &it.it {
+            It::Row { r, .. } => row = *r,
+            It::Cell { col, style, kind, .. } => {
+                if let Some(val) = oracle_value(c, &classes, *style, kind) {
+                    v.push((row, *col, val, item_id(&it.it)));
+                }
+            }
+            _ => {}
+        }
+    }
+    v
+}
+
+/// `with_header_row(HeaderRow::Row(n))` for n = the row of a cell that comes late in the stream (and of one in the
+/// middle): only cells at or below row n are kept; when the first kept cell (stream order) is not in row n the range
+/// still starts at row n, in that cell's column; every kept cell keeps its value — whatever the order of the rows.
+fn header_row_stage(c: &Case, sh: &SheetCase, wb: &mut Xlsb<Cursor<Vec<u8>>>, out: &mut Outcome) {
+    let cells = stream_cells(c, sh);
+    if cells.is_empty() {
+        return;
+    }
+    let mut ns = vec![cells[cells.len() - 1].0, cells[cells.len() / 2].0];
+    ns.dedup();
+    for n in ns {
+        let kept: Vec<&(u32, u32, String, u16)> = cells.iter().filter(|x| x.0 >= n).collect();
+        let mut want: BTreeMap<(u32, u32), String> = BTreeMap::new();
+        for k in &kept {
+            want.insert((k.0, k.1), k.2.clone());
+        }
+        // bounding box: the kept cells and the placeholder (n, column of the first kept cell)
+        let first = kept[0];
+        let mut pts: Vec<(u32, u32)> = want.keys().copied().collect();
+        if first.0 != n {
+            pts.push((n, first.1));
+        }
+        let expect = format!(
+            "ok {} {} {} {} {}",
+            pts.iter().map(|p| p.0).min().unwrap(),
+            pts.iter().map(|p| p.1).min().unwrap(),
+            pts.iter().map(|p| p.0).max().unwrap(),
+            pts.iter().map(|p| p.1).max().unwrap(),
+            want.iter().map(|((r, col), v)| format!("{r},{col},{v}")).collect::<Vec<_>>().join(";")
+        );
+        wb.with_header_row(calamine::HeaderRow::Row(n));
+        let got = match guarded(|| wb.worksheet_range(&sh.name)) {
+            Ok(Ok(r)) => canon_range(&r),
+            Ok(Err(e)) => err_class(&e),
+            Err(p) => format!("panic:{p}"),
+        };
+        wb.with_header_row(calamine::HeaderRow::FirstNonEmptyRow);
+        if got != expect {
+            out.fails.push(("impl_vs_spec".into(), "header_row".into(), got, format!("HeaderRow::Row({n})"), expect));
+            return;
+        }
+    }
+}
+
+/// ONE `XlsbCellsReader` (public API: `worksheet_cells_reader`), `next_cell` and `next_formula` called in a random
+/// interleaving: each call returns the next value cell / the next formula cell of the record stream, with the row
+/// of the last row header — run on sheets whose formulas are all decodable.
+fn interleave_stage(c: &Case, sh: &SheetCase, wb: &mut Xlsb<Cursor<Vec<u8>>>, out: &mut Outcome, rep: Option<&mut Counters>) {
+    let (a, b) = data_span(&sh.items).unwrap_or((0, 0));
+    let data = &sh.items[a..b];
+    let decodable = data.iter().all(|f| match &f.it {
+        It::Cell { fmla: Some(t), kind, .. } if !matches!(kind, Kind::Blank | Kind::Rk(_) | Kind::Isst(_)) => t[..] == TRIVIAL_FMLA[..],
+        _ => true,
+    });
+    if !decodable {
+        return;
+    }
+    let classes = style_classes(c);
+    let mut rng = Rng::new(fnv64(sh.name.as_bytes()) ^ data.len() as u64);
+    let pattern: Vec<bool> = (0..data.len() + 2).map(|_| rng.chance(1, 2)).collect(); // true = next_formula
+    // description: walk the items
+    let mut want: Vec<String> = vec![];
+    let (mut i, mut row) = (0usize, 0u32);
+    'calls: for &f in &pattern {
+        loop {
+            if i >= data.len() {
+                want.push("end".into());
+                break 'calls;
+            }
+            let it = &data[i].it;
+            i += 1;
+            match it {
+                It::Row { r, .. } => {
+                    row = *r;
+                    if row > 0x0010_0000 {
+                        want.push("end".into());
+                        break 'calls;
+                    }
+                }
+                It::Cell { col, style, kind, .. } => {
+                    let id = item_id(it);
+                    let hit = if f { (8..=11).contains(&id) } else { oracle_value(c, &classes, *style, kind).is_some() };
+                    if hit {
+                        want.push(format!("{}{row},{col}", if f { "F" } else { "C" }));
+                        break;
+                    }
+                }
+                _ => {}
+            }
+        }
+    }
+    let got = guarded(|| -> Vec<String> {
+        let mut v = vec![];
+        let mut rd = match wb.worksheet_cells_reader(&sh.name) {
+            Ok(r) => r,
+            Err(e) => return vec![err_class(&e)],
+        };
+        for &f in &pattern {
+            let r = if f { rd.next_formula().map(|o| o.map(|c| c.get_position())) } else { rd.next_cell().map(|o| o.map(|c| c.get_position())) };
+            match r {
+                Ok(Some((r, col))) => v.push(format!("{}{r},{col}", if f { "F" } else { "C" })),
+                Ok(None) => {
+                    v.push("end".into());
+                    break;
+                }
+                Err(e) => {
+                    v.push(err_class(&e));
+                    break;
+                }
+            }
+        }
+        v
+    });
+    let got = got.unwrap_or_else(|p| vec![format!("panic:{p}")]);
+    if let Some(rep) = rep {
+        rep.count("interleaved_reader_runs");
+        rep.add("interleaved_reader_calls", pattern.len() as u64);
+    }
+    if got != want {
+        let pat: String = pattern.iter().map(|f| if *f { 'F' } else { 'C' }).collect();
+        out.fails.push(("impl_vs_spec".into(), "interleave".into(), got.join(" "), format!("calls {pat}"), want.join(" ")));
+    }
+}
+
 fn run_case(c: &Case, drv: &mut Driver, rep: Option<&mut Counters>) -> Outcome {
     let mut out = Outcome { fails: vec![] };
     let classes = style_classes(c);
@@ -1021,6 +1165,10 @@ fn run_case(c: &Case, drv: &mut Driver, rep: Option<&mut Counters>) -> Outcome {
                 out.fails.push(("impl_vs_spec".into(), format!("panic_{}", c.fault), format!("panic:{p}"), model.clone(), "worksheet_formula: an error or a range, never a panic".into()));
             }
         }
+        if wellformed && sh.cut.is_none() && got_class.starts_with("ok") {
+            header_row_stage(c, sh, &mut wb, &mut out);
+            interleave_stage(c, sh, &mut wb, &mut out, rep.as_deref_mut());
+        }
         let (expect, want) = oracle_sheet(c, sh);
         if let Some(rep) = rep.as_deref_mut() {
             rep.count(&format!("outcome_{}", got_class.split(|c| c == ' ' || c == ':').take(if got_class.starts_with("err") { 2 } else { 1 }).collect::<Vec<_>>().join("_")));
@@ -1096,7 +1244,8 @@ fn gen_units(rng: &mut Rng) -> Vec<u16> {
         return gen_long_ascii_units(rng);
     }
     let n = *rng.pick(&[0usize, 1, 1, 2, 3, 5, 8, 20, 130]);
-    let n = if rng.chance(1, 400) { 9000 } else { n };
+    // now and then a long string, or one around the 32767-character limit of a cell (a record of more than 64 KiB)
+    let n = if rng.chance(1, 400) { 9000 } else if rng.chance(1, 500) { 32760 + rng.below(8) as usize } else { n };
     let alpha: &[u16] = match rng.below(6) {
         0 | 1 => &[0x61, 0x62, 0x63, 0x20, 0x58, 0x59, 0x5A, 0x30, 0x31, 0x39],
         2 => &[0x61, 0x26, 0x3C, 0x3E, 0x22, 0x27, 0x20, 0x62],
@@ -1234,7 +1383,12 @@ fn long_block(rng: &mut Rng, items: &mut Vec<Fr>, fm: &FrameMode, kind: u8, targ
     push(rng, end, vec![]);
 }
 
+/// grbitFlags, cce = 3, PtgInt 1, cb = 0: the formula `=1`
+const TRIVIAL_FMLA: [u8; 13] = [0, 0, 3, 0, 0, 0, 0x1E, 1, 0, 0, 0, 0, 0];
+
 fn gen_sheet(rng: &mut Rng, name: String, nsst: usize, nxf: usize) -> SheetCase {
+    // in half of the sheets every formula is a decodable one, so that `next_formula` can be run on them
+    let simple_fmla = rng.chance(1, 2);
     let fm = FrameMode(rng.below(3) as u8);
     let p_noise = *rng.pick(&[0u64, 0, 1, 4]);
     // bounding box: ≤ 2^21 cells (ledger D37), biased to the corners of the grid; the largest boxes only with few
@@ -1386,7 +1540,7 @@ fn gen_sheet(rng: &mut Rng, name: String, nsst: usize, nxf: usize) -> SheetCase 
             1 => *rng.pick(&[0xFF_FFFFu32, 0x01_0000, 0x00_0100]),
             _ => rng.below(nxf.max(1) as u64) as u32,
         };
-        let fmla = if matches!(kind, Kind::Err(_) | Kind::Bool(_) | Kind::Real(_) | Kind::Str(_)) && rng.chance(2, 5) { Some(gen_fmla(rng)) } else { None };
+        let fmla = if matches!(kind, Kind::Err(_) | Kind::Bool(_) | Kind::Real(_) | Kind::Str(_)) && rng.chance(2, 5) { Some(if simple_fmla { TRIVIAL_FMLA.to_vec() } else { gen_fmla(rng) }) } else { None };
         let f = fm.frame(rng, It::Cell { col: c, style, kind, fmla });
         items.push(f);
     }
@@ -1905,6 +2059,27 @@ fn corpus() -> Vec<Case> {
         let tail = c.sheets[0].items.split_off(at);
         c.sheets[0].items.extend(plain(block));
         c.sheets[0].items.extend(tail);
+        v.push(c);
+    }
+    // rows out of stream order with a real cell in the header row behind the first kept cell (HeaderRow::Row(3))
+    v.push(base_case(vec![row(5), cell(2, 0, Kind::Bool(1), false), row(3), cell(2, 0, Kind::Real(7.5f64.to_bits()), false), cell(4, 0, Kind::Bool(0), false)]));
+    // value and formula cells in one row, row > 0: one reader, next_cell / next_formula interleaved
+    v.push(base_case(vec![
+        row(9),
+        cell(0, 0, Kind::Real(1.0f64.to_bits()), true),
+        cell(1, 0, Kind::Bool(1), false),
+        cell(2, 0, Kind::Str(vec![0x41]), true),
+        row(12),
+        cell(0, 0, Kind::Bool(1), true),
+        cell(3, 0, Kind::Err(7), true),
+        cell(4, 0, Kind::Real(2.0f64.to_bits()), false),
+    ]));
+    // strings at the 32767-character limit (records of more than 64 KiB) behind an ordinary record: inline, formula
+    // string and shared string
+    for n in [32762usize, 32763, 32766, 32767] {
+        let u: Vec<u16> = (0..n).map(|i| 0x30 + (i % 10) as u16).collect();
+        let mut c = base_case(vec![row(0), cell(0, 0, Kind::Str("before".encode_utf16().collect()), false), cell(1, 0, Kind::Str(u.clone()), false), cell(2, 0, Kind::Real(1.5f64.to_bits()), false), cell(3, 0, Kind::Str(u.clone()), true), cell(4, 0, Kind::Isst(1), false)]);
+        c.sst = Some(vec!["first".encode_utf16().collect(), u]);
         v.push(c);
     }
     // long ASCII strings (32+ units, every length mod 4) ending in characters above U+00FF: inline, formula and shared
